@@ -242,6 +242,56 @@ func runC18(c *Ctx) {
 		})
 	}
 	c.S.Floor("R3", "narrowing conversions in writers", 3, nNarrow)
+	// the same for the stream encoders of eventlog (Marshal* functions), for prefixes and fields of
+	// at most 16 bits: the range check must be on the very expression that is narrowed. (A 32-bit
+	// prefix of an in-memory length needs a 4 GiB object to wrap and is not examined.)
+	nStreamNarrow := 0
+	if ep := byPath[repoPath("eventlog")]; ep != nil {
+		for _, file := range ep.Syntax {
+			if strings.HasSuffix(c.P.Fset.File(file.Pos()).Name(), "_test.go") {
+				continue
+			}
+			for _, d := range file.Decls {
+				fd, ok := d.(*ast.FuncDecl)
+				if !ok || fd.Body == nil || !strings.HasPrefix(fd.Name.Name, "Marshal") && !strings.HasPrefix(fd.Name.Name, "write") && !strings.HasPrefix(fd.Name.Name, "Write") {
+					continue
+				}
+				info := ep.TypesInfo
+				fname := "eventlog." + fd.Name.Name
+				if rn := recvTypeName(fd); rn != "" {
+					fname = "eventlog." + rn + "." + fd.Name.Name
+				}
+				ast.Inspect(fd.Body, func(n ast.Node) bool {
+					call, ok := n.(*ast.CallExpr)
+					if !ok || len(call.Args) != 1 {
+						return true
+					}
+					tv, ok := info.Types[call.Fun]
+					if !ok || !tv.IsType() {
+						return true
+					}
+					to, ok1 := tv.Type.Underlying().(*types.Basic)
+					at := info.Types[call.Args[0]]
+					if at.Type == nil {
+						return true
+					}
+					from, ok2 := at.Type.Underlying().(*types.Basic)
+					if !ok1 || !ok2 || to.Info()&types.IsInteger == 0 || from.Info()&types.IsInteger == 0 || at.Value != nil {
+						return true
+					}
+					tb, fb := basicBits(to), basicBits(from)
+					if tb >= fb || tb > 16 {
+						return true
+					}
+					nStreamNarrow++
+					src := exprString(call.Args[0])
+					c.S.Check(hasRangeCheck(info, fd, call, call.Args[0], tb), "R3", fname+":narrowing "+src, c.pos(call.Pos()), fmt.Sprintf("%s is range-checked before being narrowed to %d bits", src, tb), fmt.Sprintf("%s is narrowed to %d bits with no preceding range check of that very expression: an out-of-range value wraps in the encoding instead of being refused", src, tb))
+					return true
+				})
+			}
+		}
+	}
+	c.S.Floor("R3", "narrowing conversions (≤ 16 bits) in the eventlog stream encoders", 1, nStreamNarrow)
 
 	// ---------------- R4 stream codecs ----------------
 	nStream := 0
